@@ -6,6 +6,7 @@ import (
 	"fmt"
 	"hash/fnv"
 
+	"github.com/libsv/go-bt/v2/bscript"
 	"github.com/libsv/go-bt/v2/bscript/interpreter"
 	"github.com/libsv/go-bt/v2/bscript/interpreter/debug"
 	"github.com/libsv/go-bt/v2/bscript/interpreter/scriptflag"
@@ -429,33 +430,12 @@ func c19Judge(c *mon.Ctx, in *progInput) {
 			}
 		}
 	}
-	// (e) debug.NewDebugger: attached functions fire FIFO, and the hooks fire in the same order
-	dd := debug.NewDebugger()
-	var log []uint16
-	st := func(k int) func(*interpreter.State) {
-		return func(*interpreter.State) { log = append(log, uint16(k)) }
-	}
-	sd := func(k int) func(*interpreter.State, []byte) {
-		return func(*interpreter.State, []byte) { log = append(log, uint16(k)) }
-	}
-	for id := 0; id < 3; id++ {
-		o := id << 8
-		dd.AttachBeforeExecute(st(o | evBeforeExecute))
-		dd.AttachAfterExecute(st(o | evAfterExecute))
-		dd.AttachBeforeStep(st(o | evBeforeStep))
-		dd.AttachAfterStep(st(o | evAfterStep))
-		dd.AttachBeforeExecuteOpcode(st(o | evBeforeExecuteOpcode))
-		dd.AttachAfterExecuteOpcode(st(o | evAfterExecuteOpcode))
-		dd.AttachBeforeScriptChange(st(o | evBeforeScriptChange))
-		dd.AttachAfterScriptChange(st(o | evAfterScriptChange))
-		dd.AttachAfterSuccess(st(o | evAfterSuccess))
-		k := o | evAfterError
-		dd.AttachAfterError(func(*interpreter.State, error) { log = append(log, uint16(k)) })
-		dd.AttachBeforeStackPush(sd(o | evBeforeStackPush))
-		dd.AttachAfterStackPush(sd(o | evAfterStackPush))
-		dd.AttachBeforeStackPop(st(o | evBeforeStackPop))
-		dd.AttachAfterStackPop(sd(o | evAfterStackPop))
-	}
+	// (e) debug.NewDebugger: attached functions fire FIFO, and the hooks fire in the same order.
+	// Every other case uses ONE debugger object that lives as long as the child
+	// process (a debugger attached to one execution after another), the others a
+	// fresh one.
+	dd, logp := c19DefaultDebugger(len(in.Unlock)%2 == 0)
+	*logp = (*logp)[:0]
 	err3, ok := run(dd)
 	if !ok {
 		return
@@ -464,6 +444,7 @@ func c19Judge(c *mon.Ctx, in *progInput) {
 		good = false
 		c.Violationf("C19:verdict-changes-with-default-debugger:"+e, "without debugger: %s; with debug.NewDebugger: %s; unlock=%x lock=%x", errText(err0), errText(err3), []byte(in.Unlock), []byte(in.Lock))
 	}
+	log := *logp
 	if len(log) != 3*len(rec.events) {
 		good = false
 		c.Violationf("C19:default-debugger:call-count:"+e, "3 attached functions per hook were called %d times in total, expected 3 x %d; unlock=%x lock=%x", len(log), len(rec.events), []byte(in.Unlock), []byte(in.Lock))
@@ -494,6 +475,61 @@ func c19Judge(c *mon.Ctx, in *progInput) {
 			return map[string]any{"unlock": in.Unlock, "lock": in.Lock, "flags": in.Flags, "error": errText(err0), "callbacks": len(rec.events), "stream": names}
 		})
 	}
+}
+
+var (
+	c19Shared    debug.DefaultDebugger
+	c19SharedLog []uint16
+)
+
+// c19DefaultDebugger returns a debug.NewDebugger() with three functions
+// attached to every hook (they append hook kind | attachment number << 8 to the
+// returned log): the process-wide one (reuse) or a new one.
+func c19DefaultDebugger(reuse bool) (debug.DefaultDebugger, *[]uint16) {
+	if reuse && c19Shared != nil {
+		return c19Shared, &c19SharedLog
+	}
+	logp := new([]uint16)
+	if reuse {
+		logp = &c19SharedLog
+	}
+	dd := debug.NewDebugger()
+	st := func(k int) func(*interpreter.State) {
+		return func(*interpreter.State) { *logp = append(*logp, uint16(k)) }
+	}
+	sd := func(k int) func(*interpreter.State, []byte) {
+		return func(*interpreter.State, []byte) { *logp = append(*logp, uint16(k)) }
+	}
+	for id := 0; id < 3; id++ {
+		o := id << 8
+		dd.AttachBeforeExecute(st(o | evBeforeExecute))
+		dd.AttachAfterExecute(st(o | evAfterExecute))
+		dd.AttachBeforeStep(st(o | evBeforeStep))
+		dd.AttachAfterStep(st(o | evAfterStep))
+		dd.AttachBeforeExecuteOpcode(st(o | evBeforeExecuteOpcode))
+		dd.AttachAfterExecuteOpcode(st(o | evAfterExecuteOpcode))
+		dd.AttachBeforeScriptChange(st(o | evBeforeScriptChange))
+		dd.AttachAfterScriptChange(st(o | evAfterScriptChange))
+		dd.AttachAfterSuccess(st(o | evAfterSuccess))
+		k := o | evAfterError
+		dd.AttachAfterError(func(*interpreter.State, error) { *logp = append(*logp, uint16(k)) })
+		dd.AttachBeforeStackPush(sd(o | evBeforeStackPush))
+		dd.AttachAfterStackPush(sd(o | evAfterStackPush))
+		dd.AttachBeforeStackPop(st(o | evBeforeStackPop))
+		dd.AttachAfterStackPop(sd(o | evAfterStackPop))
+	}
+	if reuse {
+		c19Shared = dd
+		// the process-wide debugger has always been through one execution already
+		// (so that a replayed single case is a second use as well)
+		func() {
+			defer func() { _ = recover() }()
+			_ = interpreter.NewEngine().Execute(
+				interpreter.WithScripts(bscript.NewFromBytes([]byte{0x51}), bscript.NewFromBytes([]byte{0x51})),
+				interpreter.WithDebugger(dd))
+		}()
+	}
+	return dd, logp
 }
 
 func init() {
